@@ -371,6 +371,7 @@ Definition acks_obs (cf : cfg) (retries : Z) (acks : list Z) : list Z :=
   let '(o, n) := acks_run cf retries true acks in
   [match o with Some x => outcome_code x | None => -1 end; Z.of_nat n].
 
-Definition int16_table : list Z :=
-  flat_map (fun a => map (fun b => match int16_2 a b with Some v => v | None => -1000 end)
-                         (rangeZ 0 128)) (rangeZ 0 128).
+(* every pair of ASCII characters accepted by int(s, 16), with its value *)
+Definition int16_accepted : list (list Z) :=
+  flat_map (fun a => flat_map (fun b => match int16_2 a b with Some v => [[a; b; v]] | None => [] end)
+                              (rangeZ 0 128)) (rangeZ 0 128).
